@@ -7,27 +7,33 @@ PROPERTIES = ['C16', 'C02']
 HERE = os.path.dirname(os.path.abspath(__file__))
 
 BOUNDS = {
-    'quick': ('float: EVERY bit pattern of every argument (one query per function, all pairs for binary functions) for floor, ceil, trunc, round, rint, lrint, llrint '
+    'quick': ('float: EVERY bit pattern of every argument (one query per function, all 2^64 pairs for binary functions) for floor, ceil, trunc, round, rint, lrint, llrint '
               '(+ the f-suffixed names), copysign, signbit, fabs/abs, fmin, fmax, fdim, nextafter, isnan, isinf, isfinite; constant-evaluation path (CE=1) for all, '
-              'run-time path (CE=0, clang) additionally for the functions that dispatch on is_constant_evaluated(). fmod/remainder: all special cases (NaN, infinities, zeros) '
-              'and integer-valued arguments |x|,|y| < 2^10. lerp: exact endpoints and a==b for all finite floats, lerp == std::lerp bit for bit; hypot (2 and 3 arguments): all non-finite argument combinations; '
-              'midpoint: float == std::midpoint bit for bit + overflow/betweenness, all 8 integer widths == std::midpoint for all pairs; integral overloads for all int; numeric_limits<float> constants; '
-              'CBMC libm models vs glibc on 912 unary + 324 binary boundary rows. double: floor, ceil, trunc, round, rint, signbit, fabs, classification (all bit patterns, CE=1).'),
-    'thorough': ('as quick, plus double for every entry (all 2^64 / 2^128 bit patterns; integer-valued fmod/remainder |x|,|y| < 2^12 for float and double), double model table (1612 + 324 rows)'),
+              'run-time path as clang compiles it (CE=0) additionally for the functions that dispatch on is_constant_evaluated(). fmod/remainder: all special cases (a NaN, an infinity or a zero among the arguments) '
+              'and integer-valued arguments (|x|,|y| < 2^10 fmod, < 2^8 remainder). lerp: exact endpoints and a==b for all finite floats, lerp == std::lerp bit for bit for all triples; '
+              'hypot (2 and 3 arguments): all combinations with a non-finite argument; midpoint: float == std::midpoint bit for bit for all pairs + no overflow / betweenness; all 8 integer widths == std::midpoint for all pairs; '
+              'integral overloads for all int; numeric_limits<float> constants and the HUGE_VAL/INFINITY/NAN macros; CBMC libm models and the IEEE definitions vs glibc on 194 unary + 196 binary boundary rows. '
+              'double (CE=1): floor, ceil, trunc, round, rint, signbit, fabs, classification for all 2^64 bit patterns.'),
+    'thorough': ('as quick, plus double for every entry (all 2^64 bit patterns / 2^128 pairs / 2^192 triples), integer-valued fmod |x|,|y| < 2^12 and remainder < 2^10 for float and double, double model table (202 + 196 rows)'),
 }
 ASSUMPTIONS = [
     'C16: a NaN result is compared by NaN-ness only (sign and payload of a NaN result are not compared); every other result bit for bit',
-    'C16: fmin/fmax of two zeros with opposite signs: either zero is accepted (ISO C leaves it open; glibc returns the second argument, CBMC\'s model the first)',
-    'C16: lrint/llrint: arguments whose rounded value is not representable in long (|x| >= 2^63, NaN, inf) are excluded - ISO C leaves the result unspecified there',
+    'C16: fmin/fmax: two cases that ISO C leaves open accept either answer - zeros of opposite sign (glibc returns the second argument, CBMC\'s model the first) and a signalling NaN argument (glibc returns NaN, treating it like a quiet NaN is accepted too)',
+    'C16: lrint/llrint: arguments whose rounded value is not representable in long (x < -2^63, x >= 2^63, NaN, inf) are excluded - ISO C leaves the result unspecified there',
     'C16: default rounding mode (round to nearest even) - rint/lrint are not exercised under other modes; floating-point exceptions / errno are not observed',
-    'C16: CE=1 is obtained with `#define __builtin_is_constant_evaluated() true` in the kernel TU, i.e. the constant-evaluation branch is executed at run time (same code a constexpr evaluation runs)',
+    'C16: CE=1 is obtained with `#define __builtin_is_constant_evaluated() true` in the kernel TU, i.e. the constant-evaluation branch is executed at run time (the code a constexpr evaluation runs)',
+    'C16: the oracle is ieee_ref.h: each function defined from the bit pattern (integer part / fraction class read off the mantissa, no rounding). model_check.cpp validates it natively against glibc 2.36: '
+    'all 2^32 floats for floor/ceil/trunc/round/rint/nearbyint/fabs/lrint/llrint/classification, 73 million double comparisons (every exponent x boundary mantissas, random), binary functions on a boundary grid squared + random pairs, '
+    'fmod/remainder special cases and the integer oracle for all |x|,|y| < 2^10: 0 mismatches (run by hand, ~5 min; not part of ./vf check)',
+    'C16: second oracle = CBMC 6.11 libm models (floor, ceil, trunc, round, rint, nearbyint, fabs, copysign, fmin, fmax, lrint, llrint); q_model_table checks each against glibc on boundary rows '
+    '(mk_table.py regenerates the rows from libm.so.6; spec.py verifies the stored table against glibc through ctypes on every run). Dropped models: fdim (returns +0 for NaN arguments), fmod (returns 0), '
+    'remainder (ignored by the SAT back end); nextafter has none. For those ieee_ref.h is the only oracle.',
     'C16: fmod/remainder for general arguments are outside the claim (exact real quotient not expressible, DESIGN.md); decided only: special cases and integer-valued arguments below the stated bound. '
-    'sqrt/exp/log/pow/trigonometric/hyperbolic/erf/gamma functions and <complex> are outside the claim (not encodable); hypot beyond its NaN/inf rules likewise. fma is not part of the property.',
-    'C16: second oracle = CBMC 6.11 libm models (floor, ceil, trunc, round, rint, nearbyint, fabs, copysign, fmin, fmax, lrint, llrint); each is checked in q_model_table against glibc 2.36 on boundary rows '
-    '(mk_table.py regenerates the rows from libm.so.6 and spec.py verifies the stored table against glibc on every run). Dropped models: fdim (returns +0 for NaN arguments), fmod (returns 0), remainder (ignored by the SAT back end); '
-    'nextafter has no model. For those the IEEE predicate is the only oracle.',
-    'C16: fmuladd is translated unfused (x86-64 without FMA, as the native g++ build); long double overloads are outside the claim (translator)',
-    'C02 (this family): same queries with the UB-instrumented kernel; q_fmod_any (all finite x, y != 0) has no functional claim and exists for the float-cast-overflow check inside gcem::trunc',
+    'sqrt/exp/log/pow/trigonometric/hyperbolic/erf/gamma functions and <complex> are outside the claim (not encodable); hypot beyond its NaN/inf rules likewise; fma is not part of the property. '
+    'lerp/midpoint: libstdc++ (std::lerp / std::midpoint through the same pipeline, decided by cvc5) is the oracle.',
+    'C16: fmuladd is translated unfused (x86-64 without FMA, as the native g++ build); long double overloads are outside the claim (translator has no x86_fp80)',
+    'C02 (this family): same queries with the UB-instrumented kernel (float-cast-overflow etc.); q_fmod_any (finite x, y with |x| < 2^40, |y| > 2^-20) has no functional claim and covers the division/cast path of gcem::fmod; '
+    'larger quotients reach the undefined cast recorded as C16_trunc_huge',
 ]
 
 UNARY = ['q_floor', 'q_ceil', 'q_trunc', 'q_round', 'q_rint', 'q_lrint', 'q_llrint', 'q_signbit', 'q_fabs', 'q_classify']
@@ -42,29 +48,34 @@ _table_checked = {}
 
 
 def _check_table():
-    """the stored glibc reference rows must equal what glibc computes now (cheap: ~3000 libm calls through ctypes)"""
+    """the stored glibc reference rows must equal what glibc computes now (cheap: ~800 rows, libm calls through ctypes);
+    returns a list of problems (empty = table verified)"""
     if 'r' not in _table_checked:
-        spec = importlib.util.spec_from_file_location('cmath_exact_mk_table', os.path.join(HERE, 'mk_table.py'))
-        m = importlib.util.module_from_spec(spec)
-        spec.loader.exec_module(m)
-        _table_checked['r'] = m.verify()
-    n, bad = _table_checked['r']
-    if bad:
-        raise RuntimeError('cmath_exact: libm_table.inc disagrees with glibc on this machine: %s' % '; '.join(bad))
-    return n
+        try:
+            spec = importlib.util.spec_from_file_location('cmath_exact_mk_table', os.path.join(HERE, 'mk_table.py'))
+            m = importlib.util.module_from_spec(spec)
+            spec.loader.exec_module(m)
+            _table_checked['r'] = m.verify()[1]
+        except Exception as ex:   # no libm.so.6 / ctypes: the table cannot be verified on this machine
+            _table_checked['r'] = ['cannot verify libm_table.inc against glibc: %r' % (ex,)]
+    return _table_checked['r']
 
 
 def queries(tier, prop='C16'):
-    _check_table()
     ub = prop == 'C02'
     out = []
+    bad = _check_table()
+    if bad and not ub:
+        # reported by the runner as a check error ("entry ... not in driver"): the reference rows are not glibc's
+        print('cmath_exact: libm_table.inc disagrees with glibc on this machine: ' + '; '.join(bad)[:600])
+        out.append(dict(entry='q_libm_table_inc_disagrees_with_glibc', cfg={'FT': 'float', 'DBL': 0, 'CE': 1}, unwind=2))
 
     def add(entry, dbl, ce, budget=120, solver='cadical', unwind=4, **extra):
         cfg = {'FT': 'double' if dbl else 'float', 'DBL': int(dbl), 'CE': ce}
         cfg.update(extra.pop('cfg', {}))
         out.append(dict(entry=entry, cfg=cfg, unwind=unwind, solver=solver, budget=budget, ub=ub, nofunc=ub, **extra))
 
-    ilim = 10 if tier == 'quick' else 12
+    ilim = {'q_fmod_int': 10 if tier == 'quick' else 12, 'q_remainder_int': 8 if tier == 'quick' else 10}   # remainder: two fmod calls once C16_remainder_is_fmod is repaired (measured 84 s at 2^10)
     for dbl in (False, True):
         if dbl and tier == 'quick':
             for e in DOUBLE_QUICK:
@@ -76,7 +87,7 @@ def queries(tier, prop='C16'):
             add(e, dbl, 0)
         for e in SPECIAL:
             if e in ('q_fmod_int', 'q_remainder_int'):
-                add(e, dbl, 1, cfg={'ILIM': ilim}, solver='kissat')
+                add(e, dbl, 1, cfg={'ILIM': ilim[e]}, solver='kissat', budget=120 if tier == 'quick' else 900)
             else:
                 add(e, dbl, 1, solver=['cvc5', 'kissat'] if e in ('q_lerp_std', 'q_midpoint_fp') else 'kissat' if e in ('q_lerp_same', 'q_lerp_ends') else 'cadical')
         if not ub:
